@@ -16,7 +16,10 @@ TEXT = ("Thin claim: equality with the past state is a history property and is N
         "index are cleared before parsing, the staged-changes guard holds (C15/G1) and an empty target set delegates to "
         "reload. T4 - get_value with a revision reads data only under `get_revisions().contains_key(rev)`, and "
         "get_parent_revision answers from the tree entry alone. T5 - the applier does not consume the `inserted` flag of "
-        "the tree insertion, so its outcome cannot depend on revisions already delivered by another block.")
+        "the tree insertion nor any query of the tree's content to decide its result (taint closure over data and control "
+        "dependence), so its outcome cannot depend on revisions already delivered or on the order of a block's records. "
+        "T6 - the object index and the applied-pack set only grow between reloads (who-may-write: keyed insert anywhere, "
+        "clear only in DataStorage::reload).")
 TRUSTED = ["rustc nightly MIR", "C02 (apply only when Ready)", "C15/G1"]
 
 
@@ -28,6 +31,7 @@ def run(facts, res):
     res.rule("T3", "time travel starts from a clean slate and delegates the empty target set to reload")
     res.rule("T4", "historical lookups are membership-checked")
     _applier_total(facts, res, R)
+    _index_only_grows(facts, res)
     b = facts.body("melda::Melda::reload_until")
     if b is None:
         res.floor("T1", "reload_until", 0, 1)
@@ -39,7 +43,7 @@ def run(facts, res):
     seen_parent = seen_heads = False
     for bi, t in pushes:
         v = arg_term(b, t, 1, 30)
-        names = [callee_name(x) for x in walk(v) if x[0] == "call"]
+        names = [callee_name(x) for x in walk(v, False) if x[0] == "call"]
         partial = bool(set(names) & {"take", "skip", "filter", "step_by", "take_while", "skip_while", "rev"})
         if any(x[0] == "field" and x[2] == "parents" for x in walk(v)):
             st = c02.status_guard(b, bi, facts)
@@ -222,13 +226,56 @@ def _applier_total(facts, res, R):
                               "already delivered changes the outcome, and reload_until stops following parents when the apply does not report success" % (
                                   mb.path, t.callee.name, infl), mb.loc(t.line))
     res.floor("T5", "tree insertion sites in the applier", n, 1)
+    # ... nor on anything else the trees already contain: the records of one block arrive in hash-map order, so a record
+    # may legitimately precede the record of its own parent revision
+    QUERIES = {"get_revisions", "get_leafs", "get_winner", "get_parent", "get_all_revs", "contains", "is_empty", "len", "has_staging", "get_full_parents"}
+    for mb in [ap] + facts.closures_of(ap.path):
+        src = set()
+        for bi, t in mb.calls():
+            if t.callee is not None and (t.callee.impl_self or "") == "revisiontree::RevisionTree" and t.callee.name in QUERIES and \
+                    t.dest is not None and not t.dest.proj:
+                src.add(t.dest.local)
+        infl = _influences_outcome(mb, src) if src else None
+        res.instance("T5", "%s: %d query site(s) of the tree's current content; the applier's result depends on them: %s" % (mb.path, len(src), infl is not None), mb.loc())
+        if infl is not None:
+            res.violation("T5", "applier|outcome-depends-on-tree-content",
+                          "%s: the applier's result depends on what the revision tree already contains (%s): change records of one block are stored in "
+                          "hash-map order, so a record can precede the record of its parent revision and the block would be rejected half-applied on reopen" % (
+                              mb.path, infl), mb.loc())
+
+
+def _index_only_grows(facts, res):
+    from ..common import MUTATORS
+    res.rule("T6", "the object index and the applied-pack set only grow between reloads")
+    n = 0
+    for b in facts.repo_bodies():
+        root = facts.body(b.parent) if b.kind == "closure" and b.parent else b
+        for bi, t in b.calls():
+            c = t.callee
+            if c is None or c.name not in MUTATORS or not t.args:
+                continue
+            fp, _ = field_path(arg_term(b, t, 0, 12))
+            if not fp or fp[0] not in ("committed_objects", "applied_pack_ids"):
+                continue
+            if b.kind == "closure":
+                pass
+            n += 1
+            ok = c.name in ("insert", "extend", "entry", "or_insert", "or_insert_with") or \
+                (c.name == "clear" and root is not None and root.path == "datastorage::DataStorage::reload")
+            res.instance("T6", "%s: %s on %s: %s" % (b.path, c.name, fp[0], "grows / full reset in reload" if ok else "SHRINKS"), b.loc(t.line))
+            if not ok:
+                res.violation("T6", "%s|index-shrinks:%s:%s" % (root.path if root is not None else b.path, fp[0], c.name),
+                              "%s removes entries from %s with `%s` outside DataStorage::reload: objects of packs that are still in storage stop being "
+                              "retrievable (values are shared between packs by digest, so 'not referenced by the loaded blocks' does not mean unused)" % (
+                                  b.path, fp[0], c.name), b.loc(t.line))
+    res.floor("T6", "mutation sites of the object index / applied-pack set", n, 3)
 
 
 def _influences_outcome(body, local):
-    """taint closure of `local` through data and control dependence inside `body`; returns a description when a tainted
-    switch decides whether an Err is returned / a tainted value is returned, else None"""
+    """taint closure of `local` (a local or a set of locals) through data and control dependence inside `body`; returns a
+    description when a tainted switch decides whether an Err is returned / a tainted value is returned, else None"""
     cfg = cfg_of(body)
-    tainted = {local}
+    tainted = set(local) if isinstance(local, (set, frozenset, list, tuple)) else {local}
     tsw = set()
     changed = True
     while changed:
